@@ -115,6 +115,25 @@ theorem validity_iff_calendar (nb na t : Civil) (h1 : validCivil nb = true) (h2 
     · apply Int.not_lt.mp; intro h; exact x (a.1 h)
     · apply Int.not_lt.mp; intro h; exact y (b.1 h)
 
+/-- **Years from a date.** `Time::years_from_date` keeps month, day and time of day (29 February becomes
+28 February) and names a real calendar time whenever its argument does; with zero years and no leap day
+it is the identity. -/
+theorem years_from_date_spec (years : Int) (c : Civil) (h : validCivil c = true) :
+    validCivil (yearsFromDate years c) = true ∧
+    (yearsFromDate years c).m = c.m ∧ (yearsFromDate years c).h = c.h ∧ (yearsFromDate years c).mi = c.mi ∧
+    ((c.d = 29 ∧ c.m = 2) → (yearsFromDate years c).d = 28) ∧
+    (¬ (c.d = 29 ∧ c.m = 2) → (yearsFromDate years c).d = c.d) ∧
+    (¬ (c.d = 29 ∧ c.m = 2) → yearsFromDate 0 c = c) := by
+  refine ⟨yearsFromDate_valid years c h, rfl, rfl, rfl, ?_, ?_, ?_⟩
+  · intro hl; simp [yearsFromDate, hl]
+  · intro hl; simp [yearsFromDate, hl]
+  · intro hl
+    have hs : min c.s 59 = c.s := by
+      have := (valid_parts c h).2.2.2.2.2.2; omega
+    obtain ⟨y, m, d, hh, mi, s⟩ := c
+    simp only [yearsFromDate] at *
+    simp [hl, hs]
+
 /-- Trimming two windows gives their intersection. -/
 theorem trim_inter (a b : Validity) (now : Int) :
     verifyAt (trim a b) now = .ok () ↔ verifyAt a now = .ok () ∧ verifyAt b now = .ok () := by
